@@ -58,6 +58,11 @@ pub fn register(ctx: &mut Context, name: &str, h: &Host, log: &Log) {
                 r
             });
         }
+        Host::Typed(kinds) => {
+            // registered by the property modules themselves (the closure signature is the point)
+            let _ = kinds;
+            panic!("Host::Typed must be registered with a concrete closure");
+        }
         Host::Script(t) => {
             ctx.add_function(name, move |ftx: &FunctionContext, Arguments(args): Arguments| -> Result<Value, ExecutionError> {
                 log.lock().unwrap().push(Ev::Call(nm.clone(), seen(ftx, &args)));
@@ -86,7 +91,9 @@ pub fn context_for(env: &crate::reval::Env, log: &Log) -> Context<'static> {
         ctx.add_variable_from_value(n.clone(), v.to_value());
     }
     for (n, h) in env.hosts.iter() {
-        register(&mut ctx, n, h, log);
+        if !matches!(h, Host::Typed(_)) {
+            register(&mut ctx, n, h, log);
+        }
     }
     ctx
 }
